@@ -1041,6 +1041,36 @@ def rule_padded_writers(rep: Report, ix, classes) -> None:
 
 
 # ------------------------------------------------------------------------- entry
+
+def rule_identity_check_after_unpacking(rep: Report, ix) -> None:
+    """FieldCollection.__init__ links every member to its own slice; the same field object given twice cannot be linked
+    twice, so the constructor switches to copying when `len(fields) != len({id(f) for f in fields})`.  That test must look
+    at the final list of field objects: if it runs before a mapping / collection argument is unpacked it counts keys, a field
+    given under two keys is linked twice (both names view one row, the other row is orphaned)."""
+    f = ix.func(F_COLL, "FieldCollection.__init__")
+    ref = stable_ref(f)
+    tests = []
+    for n in ast.walk(f.node):
+        if isinstance(n, ast.Compare) and any(isinstance(x, ast.Call) and isinstance(x.func, ast.Name) and x.func.id == "id" for x in ast.walk(n)):
+            tests.append(n)
+    if len(tests) != 1:
+        raise AnalysisError(f"{ref}: expected exactly one identity test on the fields, found {len(tests)}")
+    t = tests[0]
+    seq = next((x.generators[0].iter for x in ast.walk(t) if isinstance(x, (ast.SetComp, ast.GeneratorExp, ast.ListComp))), None)
+    if not isinstance(seq, ast.Name):
+        raise AnalysisError(f"{ref}: identity test does not iterate a plain name")
+    later = [st for st in ast.walk(f.node) if isinstance(st, ast.Assign) and any(isinstance(x, ast.Name) and x.id == seq.id for tt in st.targets for x in ast.walk(tt)) and st.lineno > t.lineno]
+    rep.oblige("FieldCollection.__init__: the identity test sees the unpacked list of fields", not later, [ast.unparse(st)[:60] for st in later])
+    if later:
+        rep.violation(
+            "C15.collection-relink",
+            f"{ref}::identity-test-before-unpacking",
+            f"the identical-fields test `{ast.unparse(t)[:70]}` runs before `{ast.unparse(later[0])[:60]}` re-binds `{seq.id}`: for a mapping it counts keys, so one field object given under two keys is "
+            "linked twice instead of being copied (both entries alias one row of the collection array)",
+            line=t.lineno,
+        )
+
+
 def check(tier: str) -> Report:
     rep = Report("C15", tier, "other", "alias typing (FRESH/VIEW/MAYBE) and write-effect analysis over structured paths of the field classes")
     rep.explanation = (
@@ -1087,6 +1117,7 @@ def check(tier: str) -> Report:
     rule_copy(rep, ix, clf)
     rule_collection_copies(rep, ix, clf, coll)
     rule_collection_init(rep, ix, clf)
+    rule_identity_check_after_unpacking(rep, ix)
     rule_component_views(rep, ix, clf)
     rule_out_protocol(rep, ix, clf, classes)
     rule_inplace_flag(rep, ix, clf, classes)
